@@ -94,7 +94,7 @@ def judge(expr, text, render, timeout_ms, parser=None, float_key=None):
     try:
         parsed = (parser or exprparse.parse)(text, leaf_map)
     except exprparse.ParseError as ex:
-        if type(ex).__name__ == "AdjacentNumerals":
+        if any(c.__name__ == "Unreadable" for c in type(ex).__mro__):
             return "candidate", str(ex), None
         return "out_of_grammar", str(ex), None
     if isinstance(parsed, tuple):
